@@ -150,10 +150,10 @@ func (g *scenGen) note(s string) { g.s.Notes = append(g.s.Notes, s) }
 
 var queryPool = []string{
 	`age > 18`, `age <= 18`, `age = 23`, `age != ""`, `age = ""`, `gender = "male"`, `gender != "male"`, `gender ~ "ma"`, `gender = ""`,
-	`name ~ "bob"`, `name = "Bob"`, `name != ""`, `name = ""`, `language = "eng"`, `language != "eng"`, `language = ""`,
+	`name ~ "bob"`, `name = "Bob"`, `name != ""`, `name = ""`, `name ~ "Алексей"`, `name ~ "Иваненко"`, `name ~ "Александра"`, `name ~ "عبدالرحمن"`, `name ~ "smithsonite"`, `name ~ "longnamexyz"`, `name ~ "smith bob"`, `name ~ "élo"`, `language = "eng"`, `language != "eng"`, `language = ""`,
 	`tel ~ "1206"`, `tel = "+12065551212"`, `tel != ""`, `tel = ""`, `twitter != ""`, `urn ~ "1206"`, `urn = ""`, `urn != ""`,
 	`joined > "2018-01-01"`, `joined <= "2018-01-01"`, `joined = "2017-12-02"`, `joined != ""`, `state = "Kigali City"`, `state != ""`,
-	`district = "Gasabo"`, `ward = "Gisozi"`, `last_seen_on != ""`, `last_seen_on = ""`, `last_seen_on > "2018-01-01"`, `tickets > 0`, `tickets = 0`,
+	`district = "Gasabo"`, `ward = "Gisozi"`, `state = "Gasabo"`, `state != "Kigali City"`, `state = ""`, `district != ""`, `district = ""`, `ward != ""`, `ward = ""`, `district = "Kigali City"`, `ward != "Gisozi"`, `last_seen_on != ""`, `last_seen_on = ""`, `last_seen_on > "2018-01-01"`, `tickets > 0`, `tickets = 0`,
 	`created_on > "2018-01-01"`, `created_on < "2018-01-01"`, `created_on = "2018-06-20"`, `nick = "bobby"`, `nick ~ "bob"`, `nick != ""`,
 	`age > 10 AND age < 30`, `age > 18 OR gender = "male"`, `name ~ "bob" AND (language = "eng" OR tickets > 0)`, `gender = "male" AND tel != ""`,
 	`tel != "+12065551212"`, `urn != "+12065551212"`, `twitter != "bobby"`, `language != "spa"`, `tel != "+250788123123" AND tel != ""`, `created_on = "2018-01-01"`, `joined = "2018-01-01"`, `last_seen_on = "2018-01-01"`, `joined < "2018-01-01"`, `created_on >= "2018-06-20"`,
@@ -303,6 +303,8 @@ var safeTemplates = []string{
 	"@fields.state", "@(format_location(fields.state))", "@fields", "@(contact.fields.nick & \"!\")", "a@b.com and @@twitter", "@(1 / 0)", "@(missing.thing)", "@contact.nope", "@(\"unterminated",
 	"@(contact.created_on)", "@(datetime_diff(contact.created_on, contact.last_seen_on, \"D\"))", "@contact.last_seen_on", "@(contact.tickets)", "@ticket.topic.name", "@resume.type", "@node.visit_count",
 	"@(repeat(\"ab😀\", 30))", "@(json(contact))", "@(json(input))", "@(object(\"a\", results))", "@urns", "@(urn_parts(contact.urn).path)", "@(title(contact.name) & \" \" & lower(contact.name))",
+	// context values that are deprecated: reading one logs a warning
+	"@(results.q1.categories[0])", "@results.q1.values", "@(results.q1.categories_localized)", "@(results.color.categories[0]) @(results.color.values)", "@(default(results.q1.categories, \"none\"))",
 	"@results.q1", "@results.q1.input", "@(results.q1.extra)", "@results.intent.extra", "@(has_text(input.text).match)", "@run.path", "@(count(run.path))", "@run.created_on", "@run.exited_on",
 }
 
@@ -829,6 +831,10 @@ func (g *scenGen) action(ftype string, flowIdx int, loc M) M {
 			if g.o.LongTexts && r.Chance(0.5) {
 				qrs = append(qrs, LongString(fw.Pick(r, []int{63, 64, 65, 100}), 63), ClusterString(r, fw.Pick(r, []int{63, 64, 65, 66})))
 			}
+			if r.Chance(0.3) {
+				// the very template of the text again: whatever evaluating it logs (errors, warnings) is logged twice in a row
+				qrs = append(qrs, text, text)
+			}
 			a["quick_replies"] = qrs
 			g.translate(loc, u, "quick_replies", qrs, func() string { return fw.Pick(r, []string{"Si", "Non", "@contact.name"}) })
 		}
@@ -876,7 +882,8 @@ func (g *scenGen) action(ftype string, flowIdx int, loc M) M {
 			f = M{"key": "gone", "name": "Gone"}
 		}
 		a["field"] = f
-		a["value"] = fw.Pick(r, []string{"", "23", "17", "male", "female", "bobby", "@input.text", "@(fields.age + 1)", "2018-05-05", "2017-12-02T10:00:00Z", "Kigali City", "Kigali", "Gasabo", "Gisozi", "Rwanda > Kigali City", "@(1/0)", g.tpl(), "  23  ", "23.0", "abc 23 def", "Capital", "Central", "Hill"})
+		a["value"] = fw.Pick(r, []string{"", "23", "17", "male", "female", "bobby", "@input.text", "@(fields.age + 1)", "2018-05-05", "2017-12-02T10:00:00Z", "Kigali City", "Kigali", "Gasabo", "Gisozi", "Rwanda > Kigali City", "@(1/0)", g.tpl(), "  23  ", "23.0", "abc 23 def", "Capital", "Central", "Hill",
+			"Rwanda > Kigali City > Gasabo", "Rwanda > Kigali City > Gasabo > Gisozi", "Rwanda", "Rwanda > Eastern Province > Gatsibo"})
 	case "set_contact_status":
 		a["status"] = fw.Pick(r, []string{"active", "blocked", "stopped", "archived"})
 	case "set_contact_timezone":
@@ -1035,7 +1042,10 @@ func (g *scenGen) contact() M {
 	r := g.r
 	c := M{"uuid": UUID4(r), "id": r.Range(1, 99999), "created_on": fw.Pick(r, []string{"2018-06-20T11:40:30.123456789Z", "2017-12-31T23:59:59.999999Z", "2018-01-01T00:00:00Z", "2010-01-01T05:00:00+02:00"})}
 	if r.Chance(0.8) {
-		c["name"] = fw.Pick(r, []string{"Ryan Lewis", "Bob", "bob smith", "日本語 😀", LongString(20, 10)})
+		c["name"] = fw.Pick(r, []string{"Ryan Lewis", "Bob", "bob smith", "日本語 😀", LongString(20, 10),
+			// names whose words agree with a queried word in the first bytes but not in the first characters, or in the first 8
+			// characters only (name ~ matches on the first 8 characters of each word)
+			"Александр Иванов", "Алексей Иваненко", "عبدالله", "Bob Smithsonian", "Élodie Durand Smith", "Bobby Longnamehere"})
 	}
 	if r.Chance(0.7) {
 		c["language"] = fw.Pick(r, []string{"eng", "spa", "fra", "kin", "zzz"})
@@ -1080,12 +1090,16 @@ func (g *scenGen) contact() M {
 		case "datetime":
 			d := fw.Pick(r, []string{"2017-12-02T00:00:00-02:00", "2018-01-01T00:00:00Z", "2017-12-31T23:59:59.999999-05:00", "2018-01-02T04:30:00+05:30"})
 			fields[f["key"].(string)] = M{"text": d, "datetime": d}
+		// a location value holds the location of the field's own level and, when it was given as a path, deeper or shallower ones
 		case "state":
-			fields[f["key"].(string)] = M{"text": "Kigali", "state": "Rwanda > Kigali City"}
+			fields[f["key"].(string)] = fw.Pick(r, []M{{"text": "Kigali", "state": "Rwanda > Kigali City"}, {"text": "Rwanda > Kigali City > Gasabo", "state": "Rwanda > Kigali City", "district": "Rwanda > Kigali City > Gasabo"},
+				{"text": "Eastern Province", "state": "Rwanda > Eastern Province"}, {"text": "nowhere"}})
 		case "district":
-			fields[f["key"].(string)] = M{"text": "Gasabo", "district": "Rwanda > Kigali City > Gasabo"}
+			fields[f["key"].(string)] = fw.Pick(r, []M{{"text": "Gasabo", "district": "Rwanda > Kigali City > Gasabo"}, {"text": "Rwanda > Kigali City", "state": "Rwanda > Kigali City"},
+				{"text": "Gisozi", "state": "Rwanda > Kigali City", "district": "Rwanda > Kigali City > Gasabo", "ward": "Rwanda > Kigali City > Gasabo > Gisozi"}})
 		case "ward":
-			fields[f["key"].(string)] = M{"text": "Gisozi", "ward": "Rwanda > Kigali City > Gasabo > Gisozi"}
+			fields[f["key"].(string)] = fw.Pick(r, []M{{"text": "Gisozi", "ward": "Rwanda > Kigali City > Gasabo > Gisozi"}, {"text": "Rwanda > Kigali City", "state": "Rwanda > Kigali City"},
+				{"text": "Gisozi", "state": "Rwanda > Kigali City", "district": "Rwanda > Kigali City > Gasabo", "ward": "Rwanda > Kigali City > Gasabo > Gisozi"}})
 		}
 	}
 	if len(fields) > 0 {
